@@ -343,11 +343,14 @@ class DirectoryRecord:
 
         return ret
 
-    def _rr_new(self, rr_version, rr_name, rr_symlink_target, rr_relocated_child,
-                rr_relocated, rr_relocated_parent, file_mode, date_seconds):
+    def _rr_new_entries(self, rr_version, rr_name, rr_symlink_target,
+                        rr_relocated_child, rr_relocated, rr_relocated_parent,
+                        file_mode, date_seconds):
         # type: (str, bytes, bytes, bool, bool, bool, int, float) -> None
         """
-        Internal method to add Rock Ridge to a Directory Record.
+        Internal method to create the Rock Ridge entries of a Directory Record.
+        This only changes this record; the link counts that the relatives of
+        the record keep are left to _rr_new().
 
         Parameters:
          rr_version - A string containing the version of Rock Ridge to use for
@@ -391,6 +394,39 @@ class DirectoryRecord:
         if ce_record is not None and ce_record.len_cont_area > self.vd.logical_block_size():
             # A continuation area has to fit into one continuation block.
             raise pycdlibexception.PyCdlibInvalidInput('Rock Ridge name or symlink target is too long to fit in a continuation block')
+
+    def _rr_new(self, rr_version, rr_name, rr_symlink_target, rr_relocated_child,
+                rr_relocated, rr_relocated_parent, file_mode, date_seconds):
+        # type: (str, bytes, bytes, bool, bool, bool, int, float) -> None
+        """
+        Internal method to add Rock Ridge to a Directory Record.
+
+        Parameters:
+         rr_version - A string containing the version of Rock Ridge to use for
+                      this record.
+         rr_name - The Rock Ridge name to associate with this directory record.
+         rr_symlink_target - The target for the symlink, if this is a symlink
+                             record (otherwise, None).
+         rr_relocated_child - True if this is a directory record for a rock
+                              ridge relocated child.
+         rr_relocated - True if this is a directory record for a relocated
+                        entry.
+         rr_relocated_parent - True if this is a directory record for a rock
+                               ridge relocated parent.
+         file_mode - The Unix file mode for this Rock Ridge entry.
+         date_seconds - Time and date, in seconds since the epoch, to use for
+                        this directory record.
+        Returns:
+         Nothing.
+        """
+
+        self._rr_new_entries(rr_version, rr_name, rr_symlink_target,
+                             rr_relocated_child, rr_relocated,
+                             rr_relocated_parent, file_mode, date_seconds)
+
+        if self.parent is None or self.rock_ridge is None:
+            # _rr_new_entries() has seen to both of these.
+            raise pycdlibexception.PyCdlibInternalError('Rock Ridge entries of the record were not created')
 
         # For files, we are done
         if not self.isdir:
@@ -719,6 +755,42 @@ class DirectoryRecord:
                 self.isdir = False
                 self.file_flags = 0
                 self.rock_ridge.add_to_file_links()
+
+    def check_new_dir(self, vd, name, parent, seqnum, rock_ridge, rr_name,
+                      log_block_size, rr_relocated_child, rr_relocated, xa,
+                      file_mode, date_seconds):
+        # type: (headervd.PrimaryOrSupplementaryVD, bytes, DirectoryRecord, int, str, bytes, int, bool, bool, bool, int, float) -> None
+        """
+        Check that a new directory Directory Record can be created.  This takes
+        the arguments of new_dir() and raises what new_dir() would raise for
+        them, but it only ever changes this record (which is meant to be
+        thrown away afterwards), never the link counts of the parent.
+
+        Parameters:
+         vd - The Volume Descriptor the record would be part of.
+         name - The name for the directory record.
+         parent - The parent of the directory record.
+         seqnum - The sequence number to associate with the directory record.
+         rock_ridge - Whether to make this a Rock Ridge directory record.
+         rr_name - The Rock Ridge name for the directory record.
+         log_block_size - The logical block size to use.
+         rr_relocated_child - True if this is a Rock Ridge relocated child.
+         rr_relocated - True if this is a Rock Ridge relocated entry.
+         xa - True if this is an Extended Attribute record.
+         file_mode - The POSIX file mode to set for the directory.
+         date_seconds - Time and date, in seconds since the epoch, to use for
+                        the directory record.
+        Returns:
+         Nothing.
+        """
+        if self.initialized:
+            raise pycdlibexception.PyCdlibInternalError('Directory Record already initialized')
+
+        self._new(vd, name, parent, seqnum, True, log_block_size, xa,
+                  date_seconds)
+        if rock_ridge:
+            self._rr_new_entries(rock_ridge, rr_name, b'', rr_relocated_child,
+                                 rr_relocated, False, file_mode, date_seconds)
 
     def change_existence(self, is_hidden):
         # type: (bool) -> None
